@@ -298,8 +298,8 @@ func faultJobs(c *ev.Ctx, cf connConf, rev bool, sizes []int, multi bool) []conn
 	b2 := runConn(cf, bo)
 	c.Traces.Add(2)
 	if !base.hsOK || !bytes.Equal(base.got, base.sent) || !isCleanEOF(base.rerr) {
-		c.Violation(fmt.Sprintf("no fault: stream not delivered intact (%s)", cf.Kind),
-			map[string]any{"config": cf.Name, "direction": bo.dirName(), "write_sizes": sizes, "handshake_ok": base.hsOK, "delivered": len(base.got), "sent": len(base.sent), "read_error": fmt.Sprint(base.rerr)})
+		c.Violation(fmt.Sprintf("no fault: stream not delivered intact (%s)", map[bool]string{false: "c2s", true: "s2c"}[rev]),
+			map[string]any{"config": cf.Name, "protection": cf.Kind, "direction": bo.dirName(), "write_sizes": sizes, "handshake_ok": base.hsOK, "delivered": len(base.got), "sent": len(base.sent), "read_error": fmt.Sprint(base.rerr)})
 		return nil
 	}
 	if !bytes.Equal(base.wire, b2.wire) {
@@ -540,7 +540,7 @@ func connLevel(c *ev.Ctx) {
 		c.States.Add(1)
 		c.Traces.Add(1)
 		c.Transitions.Add(int64(len(tlsx.ParseRecords(r.wire)) + r.reads))
-		wit := map[string]any{"config": j.cf.Name, "direction": j.o.dirName(), "write_sizes": j.o.sizes, "transport_read_segment": j.o.seg, "read_buffer": rbufName(j.o.rbuf),
+		wit := map[string]any{"config": j.cf.Name, "protection": j.cf.Kind, "direction": j.o.dirName(), "write_sizes": j.o.sizes, "transport_read_segment": j.o.seg, "read_buffer": rbufName(j.o.rbuf),
 			"fault": j.fdesc, "delivered": len(r.got), "sent": len(r.sent), "read_error": fmt.Sprint(r.rerr)}
 		dn := "c2s"
 		if j.o.rev {
@@ -562,14 +562,14 @@ func connLevel(c *ev.Ctx) {
 		}
 		// never deliver anything that is not a prefix of what was sent
 		if !bytes.HasPrefix(r.sent, r.got) {
-			c.Violation(fmt.Sprintf("reader delivered bytes that differ from what was written (%s, %s, %s)", j.kind, j.cf.Kind, dn), wit)
+			c.Violation(fmt.Sprintf("reader delivered bytes that differ from what was written (%s)", dn), wit)
 			hists[w][j.kind+":DIFFERENT-DATA"]++
 			return
 		}
 		switch j.kind {
 		case "nofault":
 			if !bytes.Equal(r.got, r.sent) || !isCleanEOF(r.rerr) || r.werr != nil {
-				c.Violation(fmt.Sprintf("no fault: stream not delivered intact (%s, %s)", j.cf.Kind, dn), wit)
+				c.Violation(fmt.Sprintf("no fault: stream not delivered intact (%s)", dn), wit)
 			}
 			// record sizing
 			nApp := 0
@@ -580,7 +580,7 @@ func connLevel(c *ev.Ctx) {
 				if rec.Len > j.cf.maxWire() {
 					wit["record_len"] = rec.Len
 					wit["max_wire"] = j.cf.maxWire()
-					c.Violation(fmt.Sprintf("record on the wire larger than 2^14 plaintext allows (%s, %s)", j.cf.Kind, dn), wit)
+					c.Violation(fmt.Sprintf("record on the wire larger than 2^14 plaintext allows (%s)", dn), wit)
 				}
 				// RFC 5288 explicit nonce on the wire: the sequence number of the record (Finished was record 0 of the epoch)
 				if j.cf.Kind == "gcm12" {
@@ -600,7 +600,7 @@ func connLevel(c *ev.Ctx) {
 			if nApp < need {
 				wit["app_records"] = nApp
 				wit["needed_at_least"] = need
-				c.Violation(fmt.Sprintf("fewer records than ceil(n/2^14) per write: some record carries more than 2^14 plaintext bytes (%s, %s)", j.cf.Kind, dn), wit)
+				c.Violation(fmt.Sprintf("fewer records than ceil(n/2^14) per write: some record carries more than 2^14 plaintext bytes (%s)", dn), wit)
 			}
 			hists[w][fmt.Sprintf("nofault:intact:%s:%s", j.cf.Kind, dn)]++
 			hists[w][fmt.Sprintf("nofault:intact:read-buffer=%s", strings.SplitN(rbufName(j.o.rbuf), " ", 2)[0])]++
@@ -626,7 +626,7 @@ func connLevel(c *ev.Ctx) {
 			case errors.Is(r.rerr, io.EOF) && !j.eofOK:
 				c.Violation(fmt.Sprintf("wire fault surfaced as clean EOF (%s, %s)", j.kind, j.cf.Kind), wit)
 			case j.wantRO && !isRecordOverflow(r.rerr):
-				c.Violation(fmt.Sprintf("record with a length field beyond the limit not rejected as record_overflow (%s)", j.cf.Kind), wit)
+				c.Violation("record with a length field beyond the limit not rejected as record_overflow", wit)
 			}
 			cls := "error"
 			if errors.Is(r.rerr, io.EOF) {
